@@ -74,6 +74,10 @@ def _case(draw, tier):
         "subset": draw(st.booleans()),
         "names": draw(st.sampled_from(["plain", "plain", "odd", "kw"])),
         "nulls": draw(st.sampled_from([False, False, True])),
+        # integer priorities beyond 2**53 (64-bit ids / nanosecond time stamps): neighbours differ by less than float64 spacing
+        "bigint": draw(st.sampled_from([False, False, False, True])),
+        # a second pass over the same merged reader started while the first is under way
+        "overlap": draw(st.sampled_from([False, False, True])),
     }
 
 
@@ -87,7 +91,12 @@ def check(case):
     from mokapot import utils as mutils
 
     desc = case["desc"]
-    inputs = [sorted((float(v) for v in x), reverse=desc) for x in case["inputs"]]
+    bigint = bool(case.get("bigint")) and case["impl"] != "merge_sort"
+    if bigint:
+        rank = {v: i for i, v in enumerate(sorted({float(v) for x in case["inputs"] for v in x}))}
+        inputs = [sorted((2**60 + rank[float(v)] for v in x), reverse=desc) for x in case["inputs"]]
+    else:
+        inputs = [sorted((float(v) for v in x), reverse=desc) for x in case["inputs"]]
     # columns with gaps only for Parquet inputs (explicit schema): a text reader infers another type for an input whose
     # column happens to be complete / entirely empty, and the table merger rejects inputs of differing types
     nulls = bool(case.get("nulls")) and case["fmt"] == "parquet"
@@ -113,7 +122,7 @@ def check(case):
         for fi, scores in enumerate(inputs):
             df = pd.DataFrame({
                 c_id: [f"i{fi}_{j}" for j in range(len(scores))],
-                c_score: np.array(scores, dtype=float),
+                c_score: np.array(scores, dtype=np.int64 if bigint else float),
                 c_pay: [f"p{fi}x{j}" for j in range(len(scores))],
                 c_num: [float(fi) + j / 64.0 for j in range(len(scores))],
             })
@@ -156,7 +165,13 @@ def check(case):
             if impl == "chunked":
                 out = []
                 sizes = []
-                for ch in m.get_chunked_data_iterator(chunk_size=case["out_chunk"], columns=req_cols):
+                it = m.get_chunked_data_iterator(chunk_size=case["out_chunk"], columns=req_cols)
+                for ci, ch in enumerate(it):
+                    if ci == 0 and case.get("overlap"):
+                        # peek, read everything, continue: passes over one reader object are independent of each other
+                        whole = m.read(columns=req_cols)
+                        require(len(whole) == sum(len(x) for x in inputs), "overlapping-pass",
+                                f"read() during a chunked pass returned {len(whole)} rows for {sum(len(x) for x in inputs)}")
                     sizes.append(len(ch))
                     require(list(ch.index) == list(range(len(ch))), "chunk-index", "chunk index not reset")
                     out.extend(ch.to_dict("records"))
@@ -212,9 +227,9 @@ def check(case):
                 if ok and impl == "merge_sort" and case["fmt"] == "parquet":
                     ok = (a is None) if b is None else (type(a) is type(b) and a == b)
             else:
-                ok = (float(a) == float(b)) if c in (c_score, c_num) else (str(a) == str(b))
+                ok = (int(a) == int(b) if (bigint and c == c_score) else float(a) == float(b)) if c in (c_score, c_num) else (str(a) == str(b))
             require(ok, "row-modified", f"{impl}: {r[c_id]} column {c}: {a!r} != {b!r}")
-    sc = [float(r[c_score]) for r in out]
+    sc = [int(r[c_score]) if bigint else float(r[c_score]) for r in out]
     mono = all(a >= b for a, b in zip(sc, sc[1:])) if desc else all(a <= b for a, b in zip(sc, sc[1:]))
     require(mono, "not-sorted", f"{impl}: merged scores are not globally {'non-increasing' if desc else 'non-decreasing'}: {sc[:20]}")
     flat = [set(x) for x in inputs]
@@ -229,4 +244,8 @@ def check(case):
         classes.append("infinite-scores")
     if nulls:
         classes.append("columns-with-missing-values")
+    if bigint:
+        classes.append("integer-scores-beyond-2**53")
+    if case.get("overlap") and impl == "chunked":
+        classes.append("overlapping-passes")
     return {"nontrivial": nontrivial, "classes": classes, "counters": {"rows_merged": n}}
